@@ -82,7 +82,9 @@ var MutOps = []mutOp{
 	}},
 	{"type-is-not-a-type", func(t *rapid.T, w *Workspace) bool {
 		// a field whose type names a sibling field
-		c := msgsOf(w, func(_ *File, m *Message) bool { return len(plainFields(m)) >= 2 && (plainFields(m)[1].Type == "message" || plainFields(m)[1].Type == "enum") })
+		c := msgsOf(w, func(_ *File, m *Message) bool {
+			return len(plainFields(m)) >= 2 && (plainFields(m)[1].Type == "message" || plainFields(m)[1].Type == "enum")
+		})
 		if len(c) == 0 {
 			return false
 		}
